@@ -533,6 +533,19 @@ Definition hook_failed (e : ev) : bool :=
   | _, _ => false
   end.
 
+(* the documented benign races of child (attachment) management, by verb *)
+Definition benign_write_failure (e : ev) : bool :=
+  match is_api e, fail_class e with
+  | Some q, Some cl =>
+      match q_verb q with
+      | VDelete => eclass_eqb cl ENotFound
+      | VCreate => eclass_eqb cl EAlreadyExists
+      | VUpdate | VUpdateStatus => eclass_eqb cl ENotFound || eclass_eqb cl EConflict
+      | _ => false
+      end
+  | _, _ => true
+  end.
+
 Definition C12d_round (key : string) (evs : list ev) (res : sync_result) (qs : list (string * string * Z)) : option string :=
   match res with
   | SPanic => Some "panic"
@@ -543,6 +556,8 @@ Definition C12d_round (key : string) (evs : list ev) (res : sync_result) (qs : l
       (* a hard failure anywhere surfaces as an error with back-off *)
       if (existsb hard_failure evs || existsb hook_failed evs) && negb (qhas qs "AddRateLimited" key)
       then Some "failure-swallowed-without-requeue" else
+      if existsb (fun e => negb (benign_write_failure e)) (after_hook evs) && negb (qhas qs "AddRateLimited" key)
+      then Some "non-benign-failure-swallowed-without-requeue" else
       (* resyncAfterSeconds > 0 in an accepted answer: a delayed requeue of the target, whatever follows *)
       match round_hook_d evs with
       | Some (_, body, r) =>
